@@ -42,6 +42,20 @@ pub fn inputs(tier: Tier, corpus_dir: &str) -> serde_json::Value {
         s.max_len = if tier == Tier::Quick { 1 } else { 2 };
         words(&s, &mut arbitrary);
     }
+    // every scanner template and nesting prefix with short fillers (line feeds, blanks, wide
+    // characters inside each scanner), and a few long inputs across the 2^16 token threshold
+    for mut s in crate::templates::t3_spaces(Tier::Quick).into_iter().chain(crate::templates::t4_spaces(Tier::Quick)) {
+        s.max_len = if tier == Tier::Quick { 1 } else { 2 };
+        words(&s, &mut arbitrary);
+    }
+    for mut s in spaces::boundary_spaces(1) {
+        s.max_len = 1;
+        words(&s, &mut arbitrary);
+    }
+    for w in ["a=1;\n", "\u{e9} ", "%put a;\n", "/*c*/\n"] {
+        arbitrary.push(w.repeat(257));
+        arbitrary.push(w.repeat(if tier == Tier::Quick { 17_000 } else { 70_000 }));
+    }
     arbitrary.sort();
     arbitrary.dedup();
     let wellformed = crate::grammar::programs(if tier == Tier::Quick { 2 } else { 3 }, true);
